@@ -218,7 +218,7 @@ class OrderAnalysis:
                     return UNORD
                 return UNK
             if b == DGRAPH:
-                return SCAL if name in ('remove_node', 'has_node', 'add_node', 'add_edge', 'remove_edge') else UNK
+                return SCAL if name in ('remove_node', 'has_node', 'add_node', 'add_edge', 'remove_edge', 'add_nodes_from', 'add_edges_from') else UNK
             if b == ORD:
                 if name in ('pop', 'append', 'extend', 'index', 'count', 'insert', 'remove', 'clear'):
                     return SCAL
@@ -451,6 +451,11 @@ EXEC_ALLOWED = [
     ('nx.DiGraph(G.edges)', lambda n: isinstance(n._parent, ast.Attribute) and n._parent.attr == 'edges' and isinstance(n._parent._parent, ast.Call)
         and src(n._parent._parent.func) in ('nx.DiGraph', 'networkx.DiGraph') and len(n._parent._parent.args) == 1 and not n._parent._parent.keywords),
     ('nx_constant_topological_sort(G)', lambda n: _is_sole_arg_of(n, 'nx_constant_topological_sort')),
+    # the node SET handed to a set-level mutator of the derived dependency graph (the dependency graph's node / edge sets do not
+    # depend on the order in which nodes are added; it is consumed only by remove_node / nx.ancestors, see local_writes)
+    ('<derived graph>.add_nodes_from(G.nodes)', lambda n: isinstance(n._parent, ast.Attribute) and n._parent.attr == 'nodes'
+        and isinstance(n._parent._parent, ast.Call) and isinstance(n._parent._parent.func, ast.Attribute)
+        and n._parent._parent.func.attr == 'add_nodes_from' and len(n._parent._parent.args) == 1 and not n._parent._parent.keywords),
 ]
 
 
@@ -469,9 +474,9 @@ def local_writes(fn, an, g):
                         break
         if isinstance(n, ast.Name) and an.env.get(n.id) == DGRAPH and isinstance(n.ctx, ast.Load):
             p = n._parent
-            ok = (isinstance(p, ast.Attribute) and p.attr in ('remove_node',)) or \
+            ok = (isinstance(p, ast.Attribute) and p.attr in ('remove_node', 'add_node', 'add_nodes_from', 'add_edges_from')) or \
                  (isinstance(p, ast.Call) and src(p.func) in ('nx.ancestors', 'networkx.ancestors') and p.args and p.args[0] is n)
-            out.append(('frame[the dependency graph is used only through remove_node / nx.ancestors (set-valued)]',
+            out.append(('frame[the dependency graph is used only through set-level mutators (remove_node / add_nodes_from ...) and nx.ancestors (set-valued)]',
                         'discharged' if ok else 'undecided', 'line %d: %s' % (n.lineno, src(p)[:80])))
     return out
 
